@@ -637,6 +637,8 @@ impl TransportVisitor for VB {
                 call!("name", i.name());
                 call!("ids", i.ids().map(|_| ()));
                 call!("prop_bits", i.prop_bits());
+                call!("serial_number", i.serial_number());
+                call!("ev_bits", i.ev_bits(1));
                 call!("abs_info", i.abs_info(0).map(|_| ()));
                 let mut out = [0u8; 16];
                 call!("query_config_select", i.query_config_select(virtio_drivers::device::input::InputConfigSelect::IdName, 0, &mut out));
